@@ -261,11 +261,16 @@ class SyncInterpreter(BaseInterpreter[TContext, TEvent]):
         #    terminates: the child's own `stop()` re-enters this one, which
         #    now hits the idempotency guard instead of recursing forever.
         self.status = "stopped"
+        registry = self._system_registry()
         for actor_id, actor in list(self._actors.items()):
             try:
                 actor.stop()
             finally:
                 self._actors.pop(actor_id, None)
+                # 🌐 A stopped actor must not stay addressable by systemId.
+                for system_id, registered in list(registry.items()):
+                    if registered is actor:
+                        del registry[system_id]
 
         # 2️⃣ Cancel all `after` timers by signaling their cancellation events
         for state_id in list(self._after_events.keys()):
@@ -1211,6 +1216,11 @@ class SyncInterpreter(BaseInterpreter[TContext, TEvent]):
                     self._queue_actor_done(child, on_complete)
                 child.stop()
                 self._actors.pop(actor_id, None)
+                # 🌐 ...and from the actor-system registry, like `stop()`.
+                registry = self._system_registry()
+                for system_id, registered in list(registry.items()):
+                    if registered is child:
+                        del registry[system_id]
                 logger.info("🧹 Actor thread for '%s' cleaned up.", actor_id)
 
         # 🚀 Start the thread
